@@ -600,11 +600,27 @@ def check_validate(ctx, case):
             elif list(obs['annot'].values) != list(case['obs_col']):
                 viol('annotations', 'obs annotations changed')
             got_genes = [canon_name(x) for x in var.index.values]
-            if got_genes != exp_genes:
+            unknown_pos = [i for i, (o, e) in enumerate(
+                zip(case['genes'], exp_genes))
+                if e.startswith('unmapped_') and not indep_is_ensembl(o)
+                and o not in lookup_of(case['species'])]
+            fixed_ok = len(got_genes) == g and all(
+                got_genes[i] == exp_genes[i] for i in range(g)
+                if i not in unknown_pos)
+            if not fixed_ok:
                 viol('genes', 'gene identifiers %r, expected %r'
                      % (got_genes, exp_genes))
             elif len(set(var.index.values)) != g:
-                viol('genes-not-unique', 'identifiers repeat in the new file')
+                viol('genes-not-unique', 'identifiers repeat in the new '
+                     'file: %r' % list(var.index.values))
+            elif any(indep_is_ensembl(got_genes[i]) or
+                     got_genes[i] in case['genes'] for i in unknown_pos):
+                viol('genes', 'an unknown gene did not get a placeholder: %r'
+                     % got_genes)
+            # (the spelling of a placeholder - counter, timestamp - is
+            # compared with the model below, not demanded here)
+            exp_genes = [got_genes[i] if i in unknown_pos else exp_genes[i]
+                         for i in range(g)] if fixed_ok else exp_genes
             if genes_change:
                 # the original names stay available as an annotation
                 cols = [c for c in var.columns
@@ -652,15 +668,8 @@ def check_validate(ctx, case):
                              'entry %r of the requested layer is %r in the '
                              'new X (%s): moved by more than one half'
                              % (bad[:2], bad[3], ost['dtype']))
-                    else:
-                        for i in range(n):
-                            for j in range(g):
-                                if int(out_dense[i, j]) != indep_round(
-                                        float(src_dense[i, j])):
-                                    bad = (i, j)
-                        if bad is not None:
-                            viol('rounding-rule', 'entry %r not rounded half '
-                                 'to even' % (bad,))
+                    # (which of the two neighbours a tie goes to is not part
+                    # of the property: the model comparison below sees it)
             else:
                 if ost['dtype'] != st['dtype'] or not np.array_equal(
                         src_dense, out_dense):
@@ -807,13 +816,9 @@ def check_choose_dtype(ctx, rng):
             'choose_int_dtype((%r, %r)) [%s scalars] = %s, which cannot '
             'hold %d..%d' % (detail['mn'], detail['mx'], tname, got, lo, hi),
             detail)
-    elif fits_any:
-        first = [nm for nm, l, h in LADDER if l <= lo and hi <= h][0]
-        if first != got:
-            bad = True
-            ctx.violation('C16/choose_int_dtype/not-first',
-                          'choose_int_dtype = %s but %s is the first that '
-                          'fits' % (got, first), detail)
+    # (that the chosen type is the *first* of the ladder that fits is a fact
+    # about the model, compared below; the property only asks for "wide
+    # enough")
     if ctx.driver_ok:
         out = ctx.model('validate.chooseDtype', {
             'floatBits': {'float32': 24, 'float64': 53}.get(tname),
@@ -848,6 +853,23 @@ def replay_choose_dtype(ctx, d):
                       % (d['mn'], d['mx'], got, lo, hi), d)
 
 
+def map_output_ok(genes, exp, impl_m, n_unknown):
+    """order/length kept, Ensembl and known names exactly as expected,
+    unknown names replaced by names unique in the output, count right"""
+    got = impl_m['mapped']
+    if len(got) != len(genes) or impl_m['nUnmapped'] != n_unknown:
+        return False
+    lk = lookup_of('mouse')
+    unk = [i for i, g in enumerate(genes)
+           if not indep_is_ensembl(g) and g not in lk]
+    if any(got[i] != exp[i] for i in range(len(genes)) if i not in unk):
+        return False
+    if len(set(got[i] for i in unk)) != len(unk):
+        return False
+    fixed = set(got[i] for i in range(len(genes)) if i not in unk)
+    return not any(got[i] in fixed or indep_is_ensembl(got[i]) for i in unk)
+
+
 def check_helpers(ctx, rng):
     """get_minmax_x_from_h5ad, is_x_integers, round_x_to_integers on one
     generated file; is_ensembl / map_gene_identifiers on one name list"""
@@ -867,9 +889,20 @@ def check_helpers(ctx, rng):
         key = 'X' if case['layer'] == 'X' else 'layers/%s' % case['layer']
         st = read_storage(src, key)
         before = sha(src)
+        herr = None
+        mm, isint = (None, None), None
         with pipeline.quiet():
-            mm = get_minmax_x_from_h5ad(src, layer=case['layer'])
-            isint = is_x_integers(src, layer=case['layer'])
+            try:
+                mm = get_minmax_x_from_h5ad(src, layer=case['layer'])
+                isint = is_x_integers(src, layer=case['layer'])
+            except Exception as e:   # noqa
+                herr = classify(e)
+        if herr is not None or mm[0] is None or mm[1] is None:
+            ctx.case(('h', json.dumps(case, sort_keys=True)))
+            ctx.violation('C16/minmax/' + ('crash' if herr else 'none'),
+                          'get_minmax_x_from_h5ad / is_x_integers on a valid '
+                          'file: %s' % (herr or repr(mm)), case)
+            return
         # rounding works on a file whose X is the data: copy layer to X
         rounded = None
         if case['layer'] == 'X' and st['dtype'].kind == 'f':
@@ -1020,7 +1053,7 @@ def check_helpers(ctx, rng):
                 badm = True
                 ctx.violation('C16/map_genes/crash', 'map_gene_identifiers '
                               'fails: %s' % impl_m['err'], dd)
-        elif impl_m['mapped'] != exp or impl_m['nUnmapped'] != n_unknown:
+        elif not map_output_ok(genes, exp, impl_m, n_unknown):
             badm = True
             ctx.violation('C16/map_genes/wrong',
                           'map_gene_identifiers(%r) = %r, expected %r'
@@ -1083,10 +1116,10 @@ def run(ctx):
     for f in sorted(cdir.glob('*.json')) if cdir.is_dir() else []:
         replay(ctx, json.loads(f.read_text()), from_corpus=True)
     quick = ctx.tier == 'quick'
-    n_valid = 70 if quick else 520
-    n_bad = 24 if quick else 150
-    n_dtype = 300 if quick else 3000
-    n_help = 25 if quick else 200
+    n_valid = 120 if quick else 1400
+    n_bad = 36 if quick else 300
+    n_dtype = 400 if quick else 4000
+    n_help = 40 if quick else 450
     for i in range(n_valid):
         check_validate(ctx, gen_case(rng))
     for i in range(n_bad):
